@@ -121,7 +121,7 @@ theorem C15_announcement_reaches_browser_closedQ_partial (hU : UserOK U Iυ) (bs
     {w : Rec} (hw : w ∈ recsOf ⟨data, now, p, none⟩) {alias t : String}
     (hty : w.type = Gen.typePtr) (hrd : w.rdata = .ptr alias)
     (hlive : (floorPtr (w.setLife now w.ttl)).isExpired now = false)
-    (hnew : Cache.getUnique lower s1.down.cache (floorPtr (w.setLife now w.ttl)) = none)
+    (hnew : PtrNotCached lower s1.down.cache w now)
     {b : Browser} (hb : b ∈ s1.down.browsers) (ht : t ∈ b.types) (hposs : (possible w.name).contains t = true) :
     ∃ s' out i, recv (downQ lower possible ettl orc U upd) s1 data addr port now draw = .ok (s', out, .response) ∧
       Out.down (COut.callback i ⟨.added, t, alias⟩) ∈ out := by
